@@ -46,6 +46,12 @@ _INPUT_RANGES = {'vco': (0.05, 5.0), 'vvo': (1e-3, 1.0), 'alpha': (0.1, 0.5), 'z
                  'cf': (1e-8, 1e-4), 'cff': (5.0, 50.0)}
 
 
+def weighted(strategies, weights):
+    """one_of with integer weights (st.one_of drops repeated strategy objects, so repeating does not weight)."""
+    idx = [i for i, w in enumerate(weights) for _ in range(int(w))]
+    return st.sampled_from(idx).flatmap(lambda i: strategies[i])
+
+
 def shard_info():
     """(shard index, number of shards) when running inside `python -m vlib.shard ...`, else None.
     Used only to give each shard a small fixed subset of the numba-compile-heavy configuration axes
@@ -97,28 +103,29 @@ def body_strategy(rheologies):
         return rheo_inputs_strategy(b['rheology']).map(lambda inp: dict(b, rheo_inputs=inp))
     base = st.fixed_dictionaries({
         'log_R': st.floats(5.0, 7.8), 'log_rho': st.floats(2.7, 4.1), 'moi_factor': st.floats(0.2, 0.4),
-        'rheology': st.sampled_from(rheologies),
+        'rheology': st.sampled_from([r for r in rheologies for _ in range(1 if r in NONDISSIPATIVE else 4)]),
         'tidal_scale': st.one_of(st.just(1.0), st.floats(0.05, 1.0)),
         'fixed_k2': st.floats(0.01, 1.4), 'log_fixed_q': st.floats(0.5, 5.0),
         'dt_factor': st.one_of(st.none(), st.floats(-2.0, 2.0)),   # None: the function's own default 1/(Q n)
-        'sync': st.sampled_from([True, False, False, False]),
+        'sync': st.sampled_from([True, False, False, False]),   # sampled_from keeps repeats: 1 in 4 synchronous
         'use_obl': st.booleans(),
     })
     return base.flatmap(with_inputs)
 
 
-SPIN_RATIO = st.one_of(st.sampled_from([1.0, -1.0, 1.5, 2.0, 0.5, 0.0, 3.0, -3.0]), st.floats(-3.0, 3.0),
-                       st.floats(-3.0, 3.0))
-ECC = st.one_of(st.just(0.0), st.floats(0.0, 0.5), st.floats(0.0, 0.5), st.floats(0.0, 0.5),
-                st.floats(0.0, 0.12), st.floats(0.0, 0.5), st.floats(0.0, 0.5))
-OBL = st.one_of(st.just(0.0), st.floats(0.0, math.pi / 2), st.floats(0.0, math.pi / 2), st.floats(0.0, 0.3))
+def _lazy_axes():
+    spin = weighted([st.sampled_from([1.0, -1.0, 1.5, 2.0, 0.5, 0.0, 3.0, -3.0]), st.floats(-3.0, 3.0)], [1, 2])
+    ecc = weighted([st.just(0.0), st.floats(0.0, 0.5), st.floats(0.0, 0.12)], [1, 5, 1])
+    obl = weighted([st.just(0.0), st.floats(0.0, math.pi / 2), st.floats(0.0, 0.3)], [1, 2, 1])
+    return spin, ecc, obl
 
 
 def point_strategy():
     pair = lambda s: st.tuples(s, s).map(list)  # noqa: E731
+    spin, ecc, obl = _lazy_axes()
     return st.fixed_dictionaries({
-        'e': ECC, 'log_a_over_R': st.floats(0.6, 3.0),
-        'spin_ratio': pair(SPIN_RATIO), 'obl': pair(OBL),
+        'e': ecc, 'log_a_over_R': st.floats(0.6, 3.0),
+        'spin_ratio': pair(spin), 'obl': pair(obl),
         'log_visc': pair(st.floats(10.0, 24.0)), 'log_shear': pair(st.floats(7.0, 11.5)),
     })
 
@@ -138,7 +145,7 @@ def tide_case_strategy(tier, kinds=('single',), array_fraction=3):
             'bodies': st.tuples(body, body).map(list),
             'pts': array_pts if as_array else scalar_pts,
         })
-    return st.one_of(*([build(False)] * array_fraction + [build(True)]))
+    return weighted([build(False), build(True)], [array_fraction, 1])
 
 
 def case_in_domain(case):
@@ -364,11 +371,13 @@ def body_love(body, l, w):
         return k, bool(np.all(np.asarray(dt) >= 0.0)), True
     J = np.asarray(compliance_pyfunc(body.rheology)(w, 1.0 / body.shear, body.visc, *body.inputs),
                    dtype=complex) + 0.0 * w
-    finite = bool(np.all(np.isfinite(J.real)) and np.all(np.isfinite(J.imag)) and np.all(np.abs(J) > 0.0))
+    finite = bool(np.all(np.isfinite(J.real)) and np.all(np.isfinite(J.imag)))
     if not finite:
         return J, False, False
+    zero = (J == 0.0)      # the Newton model returns J = 0 at w = 0 (see KF-C10-newton-zero-frequency): k -> 0 there
     with np.errstate(all='ignore'):
-        k = love_number(l, J, body.shear, body.rho, body.g, body.R)
+        k = love_number(l, np.where(zero, 1.0, J), body.shear, body.rho, body.g, body.R)
+    k = np.where(zero, 0.0, k)
     finite = bool(np.all(np.isfinite(k.real)) and np.all(np.isfinite(k.imag)))
     return k, bool(np.all(J.imag <= 0.0)), finite
 
@@ -407,6 +416,10 @@ def mode_sum(su, body, trunc=None, with_love=True):
     freqs = [set() for _ in range(k)]
     love_cache = {}
     sig_by_l = {}
+    zero_freq = False
+    # the repository drops the n_coeff == m modes when `orbital_frequency is spin_frequency`; inside numba that is
+    # identity for arrays but *value* equality for floats (only matters for the per-degree Love-number average)
+    skip_sync = body.sync or (su.as_array in (False, 'e', 'visc') and float(spin[0]) == float(n[0]))
     for l in range(2, su.l_max + 1):
         ecc = _ecc_table_func(l, trunc)(e)
         inc = _inc_table_func(l, body.obl is not None)(obl)
@@ -417,10 +430,12 @@ def mode_sum(su, body, trunc=None, with_love=True):
                 ncoef = l - 2 * p + q
                 if m == 0 and ncoef == 0:
                     continue
-                if body.sync and ncoef == m:
+                if skip_sync and ncoef == m:
                     continue
                 w = ncoef * n - m * spin
                 aw = np.abs(w)
+                if np.any(aw == 0.0):
+                    zero_freq = True
                 sg = np.sign(w)
                 u = dist * c * np.asarray(F2, dtype=float) * np.asarray(G2, dtype=float) * np.ones(k)
                 # frequency signature as the repository groups it (only used for the per-degree average)
@@ -463,6 +478,7 @@ def mode_sum(su, body, trunc=None, with_love=True):
     out.s_dUdO = chi / M * sO
     out.s_identity = chi * sid
     out.passive = passive
+    out.has_zero_freq = zero_freq     # some mode of the enumeration has exactly zero frequency
     out.finite = finite
     out.n_freq = [len(f) for f in freqs]
     out.love_avg = {}
@@ -473,6 +489,18 @@ def mode_sum(su, body, trunc=None, with_love=True):
         out.love_avg[l] = re + 1.0j * im
     out.n_sig = {l: len(d) for l, d in sig_by_l.items()}
     return out
+
+
+def known_exception_class(body, ms, exc):
+    """Classify an exception escaping quick_tidal_dissipation for `body` into one of the two C10 known findings
+    (both ZeroDivisionError inside collapse_modes), or None."""
+    if not isinstance(exc, ZeroDivisionError):
+        return None
+    if body.rheology in NONDISSIPATIVE:
+        return 'zero_dissipation_effective_q'
+    if body.rheology == 'newton' and ms.has_zero_freq:
+        return 'newton_zero_frequency'
+    return None
 
 
 def selftest_common():
